@@ -412,7 +412,46 @@ def r4(ctx):
         ctx.check("R01.4", short_name + ":result-routing", bool(routing) and all(x[0] for x in routing), "result-components-routed-wrongly:" + short(next((x[1] for x in routing if not x[0]), ""), 80), wloc,
                   "(dX, dW, db) -> gradients / weight / bias lists")
     ctx.guard("R01.4", "record-layout", forward_record_layout, ctx, "R01.4")
-    ctx.floor("R01.4", 18 + 3 + 1 + 2 + 1, "two walks: walk form, idx, input, output, arms, routing; record layout of Network::forward")
+    ctx.guard("R01.4", "record-transport", record_transport, ctx, "R01.4")
+    ctx.floor("R01.4", 18 + 3 + 1 + 2 + 1 + 4, "two walks: walk form, idx, input, output, arms, routing; record layout of Network::forward")
+
+
+def record_transport(ctx, rule):
+    """A block's records travel from Feedback::forward to Feedback::backward (and its gradients from backward to update) packed into one
+    nested tensor.  Packing and unpacking are the identity on the list: `nested(v)` / `nestedoptional(v)` store the list handed in, as it is,
+    and `unnested()` / `unnestedoptional()` return the stored list, as it is (decided on the E6 value of each function)."""
+    from .. import e6
+    c = ctx.crate
+
+    def copy_of(t):
+        # `x.iter().cloned().collect()` / `x.into_iter().collect()`: E6 reads the adapters through; collecting the unchanged walk is a copy
+        while e6.is_call(t, "collect", 1) or e6.is_call(t, "to_vec", 1) or e6.is_call(t, "to_owned", 1) or e6.is_call(t, "clone", 1):
+            t = (e6.is_call(t, "collect", 1) or e6.is_call(t, "to_vec", 1) or e6.is_call(t, "to_owned", 1) or e6.is_call(t, "clone", 1))[0]
+        return t
+    for name, variant in (("nested", "Nested"), ("nestedoptional", "NestedOptional")):
+        fn = ctx.fn("tensor::Tensor::" + name)
+        live = [p for p in e6.Exec(c, fn).run_fn() if p.exit is None or p.exit[0] == "return"]
+        ok, got = bool(live), "?"
+        for p in live:
+            v = p.val if p.exit is None else p.exit[1]
+            prm = [q for q in fn.get("params") or []]
+            pn = prm[0].get("name") if prm and prm[0].get("k") == "bind" else None
+            d = dict(v[2]).get("data") if isinstance(v, tuple) and v and v[0] == "struct" else None
+            got = e6.show(d, 3)[:70] if d is not None else e6.show(v, 2)[:70]
+            inner = d[2] if isinstance(d, tuple) and d and d[0] == "call" and d[1] == "tensor::Data::" + variant and len(d[2]) == 1 else None
+            ok = ok and pn is not None and inner is not None and copy_of(inner[0]) == ("p", pn)
+        ctx.check(rule, "record-transport:" + name, ok, "packed-list:" + _re.sub(r"#\w+", "", got), c.loc(fn), "data: Data::%s(<the list handed in>)" % variant,
+                  "Tensor::%s stores %s instead of the list it is given: the records no longer line up with the layers when they are unpacked" % (name, got))
+    for name, variant in (("unnested", "Nested"), ("unnestedoptional", "NestedOptional")):
+        fn = ctx.fn("tensor::Tensor::" + name)
+        live = [p for p in e6.Exec(c, fn).run_fn() if p.exit is None or p.exit[0] == "return"]
+        ok, got = bool(live), "?"
+        for p in live:
+            v = p.val if p.exit is None else p.exit[1]
+            got = e6.show(v, 3)[:70]
+            ok = ok and copy_of(v) == ("payload", ("field", ("p", "self"), "data"), "tensor::Data::" + variant, 0)
+        ctx.check(rule, "record-transport:" + name, ok, "unpacked-list:" + _re.sub(r"#\w+", "", got), c.loc(fn), "returns (a clone of) the stored list",
+                  "Tensor::%s returns %s instead of the stored list" % (name, got))
 
 
 def forward_record_layout(ctx, rule):
